@@ -35,6 +35,8 @@ impl ThreadPool {
             F: FnOnce() + Send  + 'static,
     {
         let job = Box::new(f);
+        #[cfg(rws_verif)]
+        crate::verif_hooks::hit(crate::verif_hooks::Point::Submit, 0);
         let boxed_send = self.sender.send(job);
         if boxed_send.is_err() {
             eprintln!("unable to send job: {}", boxed_send.err().unwrap());
@@ -56,11 +58,17 @@ impl Worker {
 
         let boxed_thread = builder.spawn(move || loop {
 
+            #[cfg(rws_verif)]
+            crate::verif_hooks::hit(crate::verif_hooks::Point::BeforeLock, id);
             let boxed_lock = receiver.lock();
             if boxed_lock.is_err() {
                 eprintln!("Worker {} -> unable to acquire lock {}", id, boxed_lock.err().unwrap());
             } else {
+                #[cfg(rws_verif)]
+                crate::verif_hooks::hit(crate::verif_hooks::Point::Locked, id);
                 let boxed_job = boxed_lock.unwrap().recv();
+                #[cfg(rws_verif)]
+                crate::verif_hooks::hit(crate::verif_hooks::Point::Received, id);
                 if boxed_job.is_err() {
                     eprintln!("Worker {} -> unable to get job to execute {}", id, boxed_job.err().unwrap());
                 } else {
@@ -69,6 +77,8 @@ impl Worker {
                     println!("Worker {} got a job; executing.", id);
 
                     job();
+                    #[cfg(rws_verif)]
+                    crate::verif_hooks::hit(crate::verif_hooks::Point::Finished, id);
                 }
 
             }
